@@ -17,26 +17,43 @@ import (
 type KeyedRand struct {
 	mu      sync.Mutex
 	seed    uint64
-	cur     party.ID
-	streams map[party.ID]*vk.Rand
-	draws   map[party.ID][]int
+	cur     string
+	streams map[string]*vk.Rand
+	draws   map[string][]int
 	saved   io.Reader
 }
 
 func NewKeyedRand(seed uint64) *KeyedRand {
-	return &KeyedRand{seed: seed, streams: map[party.ID]*vk.Rand{}, draws: map[party.ID][]int{}}
+	return &KeyedRand{seed: seed, streams: map[string]*vk.Rand{}, draws: map[string][]int{}}
 }
 
 func (k *KeyedRand) Install()            { k.saved = rand.Reader; rand.Reader = k }
 func (k *KeyedRand) Uninstall()          { rand.Reader = k.saved }
-func (k *KeyedRand) Current(id party.ID) { k.mu.Lock(); k.cur = id; k.mu.Unlock() }
+func (k *KeyedRand) Current(id party.ID) { k.CurrentKey(string(id)) }
+
+// CurrentKey selects the stream by an arbitrary key (twins of one identity use different keys).
+func (k *KeyedRand) CurrentKey(key string) { k.mu.Lock(); k.cur = key; k.mu.Unlock() }
+
+// Alias makes stream `key` start as an exact copy of the (fresh) stream `like`.
+func (k *KeyedRand) Alias(key, like string) {
+	k.mu.Lock()
+	defer k.mu.Unlock()
+	k.streams[key] = vk.NewRand(k.seed).Fork("party:" + like)
+}
+
+// Reseed gives stream `key` fresh, independent randomness from now on.
+func (k *KeyedRand) Reseed(key string, salt uint64) {
+	k.mu.Lock()
+	defer k.mu.Unlock()
+	k.streams[key] = vk.NewRand(k.seed ^ salt).Fork("reseeded:" + key)
+}
 
 func (k *KeyedRand) Read(p []byte) (int, error) {
 	k.mu.Lock()
 	defer k.mu.Unlock()
 	s := k.streams[k.cur]
 	if s == nil {
-		s = vk.NewRand(k.seed).Fork("party:" + string(k.cur))
+		s = vk.NewRand(k.seed).Fork("party:" + k.cur)
 		k.streams[k.cur] = s
 	}
 	k.draws[k.cur] = append(k.draws[k.cur], len(p))
@@ -49,7 +66,8 @@ func (k *KeyedRand) DrawSig() map[party.ID]string {
 	k.mu.Lock()
 	defer k.mu.Unlock()
 	out := map[party.ID]string{}
-	for id, d := range k.draws {
+	for key, d := range k.draws {
+		id := party.ID(key)
 		h := sha256.New()
 		for _, n := range d {
 			fmt.Fprintf(h, "%d,", n)
